@@ -38,10 +38,12 @@ var vkScClients = []vkScClient{
 	{"outsider", "192.0.2.1:4000", "192.0.2.0/24", false}, // not in client_networks
 	// (echo family only) an IPv6 client far outside 2001:db8:aa00::/56
 	{"c6", "[2001:dff:1234:5600::1]:4000", "2001:dff:1234:5600::/56", false},
+	// (denial family only) a subnet option with SOURCE PREFIX-LENGTH 0 ("dig +subnet=0"): the query carried ECS
+	{"c0", "10.1.2.4:4000", "0.0.0.0/0", false},
 }
 
-// vkScMainClients: the clients of the general alphabets (the last one belongs to the echo family)
-var vkScMainClients = len(vkScClients) - 1
+// vkScMainClients: the clients of the general alphabets (the last two belong to the echo and to the denial family)
+var vkScMainClients = len(vkScClients) - 2
 
 type vkScEv struct {
 	Kind   string `json:"kind"` // ask, askneg, askbelow, adv, pf (the background refresh worker runs every queued refresh)
@@ -478,6 +480,7 @@ func TestVerifC19Scoped(t *testing.T) {
 		for ci := 0; ci < vkScMainClients; ci++ {
 			nev = append(nev, vkScEv{Kind: "askneg", Client: ci}, vkScEv{Kind: "askbelow", Client: ci})
 		}
+		nev = append(nev, vkScEv{Kind: "askneg", Client: len(vkScClients) - 1}, vkScEv{Kind: "askbelow", Client: len(vkScClients) - 1})
 		nev = append(nev, vkScEv{Kind: "adv", D: 4})
 		ndepth := 3
 		if c.Thorough() {
@@ -592,7 +595,7 @@ func TestVerifC19Scoped(t *testing.T) {
 	echoWork := 0
 	for pi = 0; pi < vkScMainPolicies; pi++ {
 		for _, echo := range []string{"addr", "v6", "fam0", "mapped"} {
-			for _, creator := range []int{0, 2, len(vkScClients) - 1} {
+			for _, creator := range []int{0, 2, len(vkScClients) - 2} {
 				for _, s0 := range []int{16, 24, 56} {
 					echoWork++
 					if !c.Mine(echoWork) {
